@@ -513,8 +513,7 @@ class Syntax(JupyterMixin):
                 + Style(dim=True)
             )
             lines = (
-                Text("\n")
-                .join(lines)
+                (Text("\n").join(lines) + "\n")
                 .with_indent_guides(self.tab_size, style=style)
                 .split("\n", allow_blank=True)
             )
